@@ -10,6 +10,7 @@ META = {
     'not_decided': ['the round trip parse(print(t)) = t for arbitrary trees (a relation over runs)',
                     'binding strength of prefix operators (unspecified, DESIGN 4.3 item 2)'],
 }
+META['explanation'] += " R07.10 a list of the tokens an expression can start with agrees with parse_expr's own prefix dispatch."
 
 P = "parser::Parser::<'a>::"
 LEVELS = [['='], ['&&', '||'], ['==', '!='], ['<', '<=', '>', '>='], ['+', '-'], ['*', '/', '%']]
@@ -139,6 +140,56 @@ def check_binding_table(ctx, rep, rule, counts=True):
                'a token that is not an operator must have the lowest power (it ends every expression): got %s' % tp['map'].get(tkn), prec_fn.loc())
 
     return tok, tokrank
+
+
+def check_expression_starters(ctx, rep, rule):
+    """A test on the current token that is true for (almost) exactly the tokens an expression can start with is a statement of
+    which tokens start an expression - and parse_expr's own prefix dispatch is the definition of that.  PREFIX = the tokens for
+    which parse_expr reaches a prefix parser (evaluated from its MIR, one token at a time).  Every bool-valued routine of the
+    parser that depends on the current token only, is true for at least three tokens, true ONLY for tokens of PREFIX, and
+    lacks at most three of them must be true for all of PREFIX: an optional operand (`antwoord` without a value) decided by
+    such a list silently drops the operand that starts with a forgotten token."""
+    F = ctx.facts()
+    pe = F.fn(P + 'parse_expr')
+    par = F.adts.get('parser::Parser')
+    fidx = next((i for i, f_ in enumerate(par['variants'][0]['fields']) if f_.get('name') == 'current_token'), None) if par else None
+    if fidx is None:
+        raise CheckerError('R07.10: the parser has no field `current_token`')
+    toks = [n for n, _ in F.enum_variants(tables.TOKEN)]
+    key = '_1.*.f%d' % fidx
+    prefix = set()
+    for name in toks:
+        for p in AbsInt(F, pe, {key: ('enum', tables.TOKEN, name)}, loop_bound=1, max_paths=3000).run():
+            if any(c[1].startswith(P) for c in p.calls):
+                prefix.add(name)
+                break
+    rep.count('expression_start_tokens', len(prefix))
+    cands = {}
+    for f in list(F.all_fns) + list((getattr(F, 'transparent_fns', None) or {}).values()):
+        if not f.path.startswith(P) or '{closure' in f.path or f.arg_count != 1 or (f.j.get('ret') or '') != 'bool':
+            continue
+        cands[f.path] = f
+    n = 0
+    for path, f in sorted(cands.items()):
+        tset, const = set(), True
+        for name in toks:
+            vals = set()
+            for p in AbsInt(F, f, {key: ('enum', tables.TOKEN, name)}, loop_bound=1, max_paths=400).run():
+                if p.exit != 'return':
+                    continue
+                r = simp(p.env.get('_0'))
+                vals.add(r[1] if isinstance(r, tuple) and r and r[0] == 'int' else None)
+            if len(vals) != 1 or None in vals:
+                const = False
+                break
+            if next(iter(vals)):
+                tset.add(name)
+        if not const or len(tset) < 3 or not tset <= prefix or len(prefix - tset) > 3:
+            continue
+        n += 1
+        rep.ob(tset == prefix, rule, f.path, 'tokens that start an expression',
+               'true for %d of the %d tokens parse_expr accepts in prefix position; missing: %s' % (len(tset), len(prefix), sorted(prefix - tset)), f.loc())
+    rep.ob(len(prefix) >= 10, rule, pe.path, 'prefix dispatch', '%d tokens reach a prefix parser (%d starter lists compared with it)' % (len(prefix), n), pe.loc())
 
 
 def check_else_if(ctx, rep, rule):
@@ -465,6 +516,8 @@ def run(ctx, rep):
     rep.count('op_assign_entries', entered)
 
     check_else_if(ctx, rep, 'R07.4')
+    rep.rule('R07.10', 'a list of the tokens an expression can start with agrees with the parser\'s own prefix dispatch (an optional operand decided by such a list is not dropped for a forgotten token)')
+    check_expression_starters(ctx, rep, 'R07.10')
 
     # ---- R07.5 separators ----------------------------------------------------------------------
     ps = F.fn(P + 'parse_statement')
